@@ -194,8 +194,8 @@ operators (`Ref.chainEventsG`) and whether the decidable side conditions of
 `C08_refines_batched_partial` hold (`refb_ok`); `refs_*`: the reference `Ref.chainEventsS` (any source,
 passed-on skippable errors skipped) and `refa_ok` = `Ref.runOKAB` (the decidable side conditions of
 `C12_skip_any_partial` / `C08_refines_assign_aligned_partial`); `fnless_*`: for chains of un-batched operators
-WITHOUT functions the direct specification `Ref.fnlessChain` (values routed, nothing called or packed) and
-`fnless_ok` = the decidable side conditions of `C08_fnless_chain` (`SelfAlone`, `CleanRun`). -/
+WITHOUT functions the direct specification `Ref.fnlessChainS` (values routed, nothing called or packed; any source) and
+`fnless_ok` = the side condition of `C08_fnless_chain_any_source` (`SelfAlone`; un-batched and fn-less by `fnlessSpec`). -/
 def handle (j : Json) : Except String Json := do
   let specs ← (← Driver.getArr j "specs").toList.mapM parseSpec
   match Build.build {} specs with
@@ -243,8 +243,8 @@ def handle (j : Json) : Except String Json := do
        ("refs_cause", match serr with | none => Json.null | some e => Driver.optErrJson e.cause)]
     let refF : List (String × Json) :=
       if specs.all fnlessSpec then
-        let (fout, ferr) := observe (Ref.fnlessChain ignore ops src)
-        [("fnless_ok", toJson (ops.all selfAloneB && Ref.cleanRunB ignore ops src)),
+        let (fout, ferr) := observe (Ref.fnlessChainS ignore ops src)
+        [("fnless_ok", toJson (ops.all selfAloneB)),
          ("fnless_out", Json.arr (fout.map valJson).toArray),
          ("fnless_err", match ferr with | none => Json.null | some e => Driver.errJson e.kind)]
       else []
